@@ -7,6 +7,8 @@ L2: every history is executed on MemoryStorage (and SharedMemoryStorage) and on 
       * exhaustive: every sequence of <= L method *kinds* (17 kinds; L = 4 quick, 5 thorough), arguments filled in by a
         deterministic rotation over 2 searches x 3 jobs x 2 keys and a value table (two rotations)
       * generated histories up to 200 calls incl. a malformed stream (bad ids, reserved job keys, non-dict metadata)
+      * contended concurrency (L3 only): 2..8 client processes storing to the SAME jobs / searches (own keys and
+        contested keys) on targets carrying small and large (60 000-float) values: nothing stored may be lost
       * concurrency: 2..8 client processes on one SharedMemoryStorage; a sequential history consistent with every
         client's program order and with the identifiers handed out is constructed and replayed on the model's
         concurrent semantics (`Conc.run`): every schedule-independent result must agree, and the final contents
@@ -1002,6 +1004,285 @@ def concurrent_round(ck, drv, rng, nclients, nops, round_id):
     del st
 
 
+# --------------------------------------------------------------------------- (c') contended targets
+
+BIG_N = 60_000
+
+
+def enc_small(v):
+    """like enc, but a long list is replaced by a digest (length, sum) so that big stored values stay cheap to log"""
+    if isinstance(v, (list, tuple)) and len(v) > 1000:
+        try:
+            return {"s": f"<big {type(v).__name__} len={len(v)} sum={sum(v)!r}>"}
+        except TypeError:
+            return {"s": f"<big {type(v).__name__} len={len(v)}>"}
+    if isinstance(v, list):
+        return {"l": [enc_small(x) for x in v]}
+    if isinstance(v, tuple):
+        return {"t": [enc_small(x) for x in v]}
+    if isinstance(v, dict):
+        return {"d": [[str(k), enc_small(x)] for k, x in v.items()]}
+    return enc(v)
+
+
+def call_small(st, c):
+    """call_real with the digesting encoder (arguments are small wire values)"""
+    name = c[0]
+    try:
+        r = getattr(st, name)(*pyargs(c))
+    except (KeyError, ValueError, TypeError, AttributeError, IndexError, RuntimeError) as e:
+        return {"k": "error", "v": type(e).__name__}
+    kind = RET[name]
+    if kind == "none":
+        return {"k": "none"} if r is None else {"k": "val", "v": enc_small(r)}
+    if kind == "vals":
+        return {"k": "vals", "v": [enc_small(x) for x in r]}
+    if kind == "ids":
+        return {"k": "ids", "v": list(r)}
+    return {"k": "val", "v": enc_small(r)}
+
+
+def contended_client(st, cid, prog, jids, sids, barrier, q):
+    """a client that stores to / loads from jobs and searches it shares with every other client.
+    Keys `c<cid>_*` are written by this client only; the keys `shared`, `out`, `in`, `status` by everybody."""
+    log = []
+    try:
+        barrier.wait(timeout=120)
+        for seq, op in enumerate(prog):
+            k = op[0]
+            v = {"t": [{"i": cid}, {"i": seq}]}
+            j = jids[op[1] % len(jids)]
+            s = sids[op[1] % len(sids)]
+            if k == "smeta_own":
+                c = ["store_job_metadata", j, f"c{cid}_{op[2]}", v]
+            elif k == "smeta_shared":
+                c = ["store_job_metadata", j, "shared", v]
+            elif k == "sj_own":
+                c = ["store_job", j, f"c{cid}_x{op[2]}", v]
+            elif k == "sout":
+                c = ["store_job_out", j, v]
+            elif k == "sin":
+                c = ["store_job_in", j, v, None]
+            elif k == "sstatus":
+                c = ["store_job_status", j, {"i": 10_000 * cid + seq}]
+            elif k == "ssv_own":
+                c = ["store_search_value", s, f"c{cid}_{op[2]}", v]
+            elif k == "ssv_shared":
+                c = ["store_search_value", s, "shared", v]
+            elif k == "ljob":
+                c = ["load_job", j]
+            elif k == "lstatus":
+                c = ["load_job_status", j]
+            elif k == "lsv_own":
+                c = ["load_search_value", s, f"c{cid}_{op[2]}"]
+            elif k == "lsv_shared":
+                c = ["load_search_value", s, "shared"]
+            elif k == "lmeta":
+                c = ["load_metadata_from_all_jobs", s, f"c{cid}_{op[2]}"]
+            else:
+                continue
+            log.append((c, call_small(st, c)))
+        q.put((cid, log, None))
+    except Exception as e:  # pragma: no cover
+        q.put((cid, log, repr(e)))
+
+
+def gen_contended_prog(rng, nops, load_share):
+    prog = []
+    for _ in range(nops):
+        x = rng.random()
+        t = rng.randint(0, 5)
+        if x < load_share:
+            prog.append((rng.choice(["ljob", "ljob", "lstatus", "lsv_own", "lsv_shared", "lmeta"]), t, rng.choice("abc")))
+        else:
+            prog.append((rng.choice(["smeta_own"] * 6 + ["smeta_shared", "sj_own", "sj_own", "sout", "sin", "sstatus",
+                                                         "ssv_own", "ssv_own", "ssv_shared"]), t, rng.choice("abc")))
+    return prog
+
+
+STORE_METHOD_LOC = {
+    "store_job_metadata": lambda c: ("meta", c[1], c[2], c[3]),
+    "store_job": lambda c: ("job", c[1], c[2], c[3]),
+    "store_job_out": lambda c: ("job", c[1], "out", c[2]),
+    "store_job_status": lambda c: ("job", c[1], "status", c[2]),
+    "store_job_in": lambda c: ("job", c[1], "in", {"d": [["args", c[2]], ["kwargs", c[3]]]}),
+    "store_search_value": lambda c: ("search", c[1], c[2], c[3]),
+}
+
+
+def _ck(w):
+    return json.dumps(cv(w), sort_keys=True)
+
+
+def contended_round(ck, rng, nclients, nops, big, njobs=2, attempt_seed=None):
+    """several client processes store to the SAME jobs / searches (own keys + contested keys) at the same time, on
+    targets that already carry small or large values.  Oracle (real code only): every (target, key) some client stored
+    successfully is present at the end with a value some client stored under it (exactly the writer's last value when only
+    one client writes the key); a client's loads show its own last value for the keys only it writes, and some stored
+    value for contested keys."""
+    from deephyper.evaluator.storage import SharedMemoryStorage
+
+    old_interval = sys.getswitchinterval()
+    sys.setswitchinterval(1e-6)
+    try:
+        st = SharedMemoryStorage()
+    finally:
+        sys.setswitchinterval(old_interval)
+    sids = [st.create_new_search()]
+    jids = [st.create_new_job(sids[0]) for _ in range(njobs)]
+    initial = {}
+    bigval = [i * 0.5 for i in range(BIG_N)]
+    for n, j in enumerate(jids):
+        st.store_job_metadata(j, "pre", n)
+        initial[("meta", j, "pre")] = {"i": n}
+        if big:
+            st.store_job_metadata(j, "big", bigval)
+            initial[("meta", j, "big")] = enc_small(bigval)
+            if n == 0:
+                st.store_job(j, "bigx", bigval)
+                initial[("job", j, "bigx")] = enc_small(bigval)
+    st.store_search_value(sids[0], "pre", "p")
+    initial[("search", sids[0], "pre")] = {"s": "p"}
+    if big:
+        st.store_search_value(sids[0], "big", bigval)
+        initial[("search", sids[0], "big")] = enc_small(bigval)
+    seed = attempt_seed if attempt_seed is not None else rng.randrange(1 << 30)
+    import random
+
+    progs = [gen_contended_prog(random.Random(seed * 131 + i), nops, 0.12 if big else 0.25) for i in range(nclients)]
+    ctx = mp.get_context("fork")
+    barrier, q = ctx.Barrier(nclients), ctx.Queue()
+    ps = [ctx.Process(target=contended_client, args=(st, i + 1, progs[i], jids, sids, barrier, q)) for i in range(nclients)]
+    for p in ps:
+        p.start()
+    logs, errors = {}, []
+    try:
+        for _ in ps:
+            cid, log, err = q.get(timeout=600)
+            logs[cid] = log
+            if err:
+                errors.append((cid, err))
+    except Exception as e:
+        for p in ps:
+            p.kill()
+        raise common.HarnessError(f"contended clients did not finish: {e!r}")
+    for p in ps:
+        p.join(timeout=60)
+    if errors:
+        raise common.HarnessError(f"client process crashed: {errors}")
+    case = {"kind": "contended", "clients": nclients, "ops": nops, "big": bool(big), "jobs": njobs, "seed": seed}
+    ck.case(case, nontrivial=True)
+    ck.count("schedule:contended-" + ("big" if big else "small"))
+    ck.count(f"contended-clients={nclients}")
+    ck.count("contended-calls", sum(len(l) for l in logs.values()))
+    tag = "SharedMemoryStorage-contended"
+    # ---- what was stored (successful stores only), per location
+    stored, writers, method_of = {}, {}, {}
+    for cid, log in logs.items():
+        for c, o in log:
+            f = STORE_METHOD_LOC.get(c[0])
+            if f is None:
+                continue
+            if o["k"] != "none":
+                ck.count(f"contended:store-raised:{c[0]}:{o.get('v')}")
+                continue
+            kind, target, key, val = f(c)
+            loc = (kind, target, key)
+            stored.setdefault(loc, []).append((cid, val))
+            writers.setdefault(loc, set()).add(cid)
+            method_of[loc] = c[0]
+            ck.count("contended-stores")
+    legal = {loc: {_ck(v) for _, v in vs} for loc, vs in stored.items()}
+    for loc, v in initial.items():
+        legal.setdefault(loc, set()).add(_ck(v))
+    last_own = {loc: vs[-1][1] for loc, vs in stored.items() if len(writers[loc]) == 1}
+
+    def judge(loc, got, where, midrun=False):
+        """got: wire value or None (absent)"""
+        want = legal.get(loc)
+        if want is None:
+            return
+        if midrun and loc[0] == "job" and loc[2] == "status" and got == {"i": 0}:
+            return  # the default status, read before anybody's store was served
+        method = method_of.get(loc, {"meta": "store_job_metadata", "job": "store_job", "search": "store_search_value"}[loc[0]])
+        if got is None:
+            ck.fail(f"C13|lost-value|{method}|{tag}", f"a value stored under {loc} is gone ({where})", case,
+                    {"location": list(loc), "where": where, "writers": sorted(writers.get(loc, [])), "stores": len(stored.get(loc, []))})
+        elif _ck(got) not in want:
+            ck.fail(f"C13|lost-value|{method}|{tag}", f"{loc} holds a value nobody stored there ({where})", case,
+                    {"location": list(loc), "where": where, "got": cv(got)})
+
+    # ---- final contents (parent, after every client is done)
+    final = call_small(st, ["load_search", sids[0]])
+    if final["k"] != "val":
+        ck.fail(f"C13|lost-value|load_search|{tag}", "final load_search failed", case, final)
+        return
+    recs = {sids[0] + "." + p: dict(v["d"]) for p, v in final["v"]["d"]}
+    for loc in sorted(legal):
+        kind, target, key = loc
+        if kind == "search":
+            o = call_small(st, ["load_search_value", target, key])
+            got = o["v"] if o["k"] == "val" else None
+        else:
+            rec = recs.get(target)
+            if rec is None:
+                got = None
+            elif kind == "job":
+                got = rec.get(key, None) if key in rec else None
+            else:
+                md = rec.get("metadata")
+                mdd = dict(md["d"]) if isinstance(md, dict) and "d" in md else {}
+                got = mdd[key] if key in mdd else None
+        judge(loc, got, "at the end")
+        if got is not None and loc in last_own and _ck(got) != _ck(last_own[loc]) and _ck(got) in legal[loc]:
+            ck.fail(f"C13|lost-value|{method_of[loc]}|{tag}", f"{loc} (written by one client only) does not hold that client's last value", case,
+                    {"location": list(loc), "got": cv(got), "want": cv(last_own[loc])})
+    # ---- every client's loads, in its program order
+    for cid, log in logs.items():
+        mine = {}   # loc -> last value this client stored (only for locations nobody else writes)
+        for c, o in log:
+            f = STORE_METHOD_LOC.get(c[0])
+            if f is not None:
+                if o["k"] == "none":
+                    kind, target, key, val = f(c)
+                    if len(writers[(kind, target, key)]) == 1:
+                        mine[(kind, target, key)] = val
+                continue
+            if o["k"] == "error" and o["v"] == "RuntimeError":
+                ck.count("concurrent:RuntimeError-in-iterating-load:" + c[0])
+                continue
+            if c[0] == "load_job" and o["k"] == "val":
+                rec = dict(o["v"]["d"])
+                md = rec.get("metadata")
+                mdd = dict(md["d"]) if isinstance(md, dict) and "d" in md else {}
+                for loc in legal:
+                    kind, target, key = loc
+                    if target != c[1] or kind == "search":
+                        continue
+                    got = (rec.get(key) if key in rec else None) if kind == "job" else (mdd.get(key) if key in mdd else None)
+                    if loc in mine:
+                        if got is None or _ck(got) != _ck(mine[loc]):
+                            ck.fail(f"C13|read-your-writes|{method_of[loc]}|{tag}", f"client {cid} does not read back its own last store to {loc}", case,
+                                    {"location": list(loc), "client": cid, "got": cv(got) if got is not None else None, "want": cv(mine[loc])})
+                    elif got is not None:
+                        judge(loc, got, f"load_job by client {cid}", midrun=True)
+                    elif loc in initial:
+                        judge(loc, None, f"load_job by client {cid}", midrun=True)   # present before the clients started
+            elif c[0] == "load_search_value":
+                loc = ("search", c[1], c[2])
+                if loc in mine:
+                    if o["k"] != "val" or _ck(o["v"]) != _ck(mine[loc]):
+                        ck.fail(f"C13|read-your-writes|store_search_value|{tag}", f"client {cid} does not read back its own last store to {loc}", case,
+                                {"location": list(loc), "client": cid, "got": o, "want": cv(mine[loc])})
+                elif o["k"] == "val":
+                    judge(loc, o["v"], f"load_search_value by client {cid}", midrun=True)
+            elif c[0] == "load_job_status" and o["k"] == "val":
+                loc = ("job", c[1], "status")
+                if _ck(o["v"]) not in (legal.get(loc, set()) | {_ck({"i": 0})}):
+                    ck.fail(f"C13|lost-value|store_job_status|{tag}", "load_job_status returned a value nobody stored", case, {"got": o})
+    del st
+
+
 def thread_stress(ck, nthreads, per_thread):
     """the manager serves each client from its own thread: hammer one MemoryStorage from threads"""
     st = new_memory()
@@ -1130,7 +1411,8 @@ def run(ck):
                "<= 4 thorough (total history length <= 5 resp. 11 calls; arguments by rotation over 2 searches x 3 jobs x 2 keys and a value table, several rotations; "
                "longer kind sequences sampled), on MemoryStorage, the model, and (n <= 2 quick / <= 3 thorough, plus the sampled ones) SharedMemoryStorage; "
                "(b) generated histories of 5..200 calls incl. a malformed stream (bad ids, reserved job keys, non-dict metadata); (c) 2..8 client processes on one "
-               "SharedMemoryStorage (per-client programs of creates/stores/loads), thread stress on MemoryStorage, NullStorage ids; distinct by canonical call list; "
+               "SharedMemoryStorage (per-client programs of creates/stores/loads; and contended rounds: all clients store own and contested keys of the same jobs/searches, "
+               "targets carrying small or 60 000-float values), thread stress on MemoryStorage, NullStorage ids; distinct by canonical call list; "
                "non-trivial = the history creates at least one job")
     ck.assumptions = [
         "the manager server executes each method call atomically (CPython GIL: no eval-breaker check between reading and writing an id counter; checked by disassembly on every run, not proved)",
@@ -1154,6 +1436,11 @@ def run(ck):
         rounds = ck.pick([(2, 500), (3, 400), (5, 300), (8, 250)], [(n, k) for n in (2, 3, 4, 5, 6, 7, 8) for k in (150, 400)] + [(8, 1500), (4, 2500)])
         for r, (nc, nops) in enumerate(rounds):
             concurrent_round(ck, drv, rng, nc, nops, r)
+        # (c') the same targets hammered by every client, on small and on large pre-existing values
+        crounds = ck.pick([(3, 250, False), (2, 40, True), (4, 40, True), (6, 150, False)],
+                          [(n, 400, False) for n in (2, 3, 5, 8)] + [(n, 60, True) for n in (2, 3, 4, 6, 8)] + [(4, 1500, False), (3, 150, True)])
+        for nc, nops, big in crounds:
+            contended_round(ck, rng, nc, nops, big)
         thread_stress(ck, 4, ck.pick(3000, 20000) * (5 if risky else 1))
         thread_stress(ck, 8, ck.pick(1000, 8000) * (5 if risky else 1))
     # (a) exhaustive kind sequences on top of three starting contents (nothing / 1 search x 1 job / 2 searches x 3 jobs)
@@ -1236,6 +1523,15 @@ def replay(ck, case, drv=None, quiet=False):
             finally:
                 factory.close()
             sink.fold(ck)
+        elif kind == "contended":
+            import random
+
+            # a race: the same programs are run up to 5 times, stopping at the first run that fails
+            for attempt in range(5):
+                before = len(ck.failures)
+                contended_round(ck, random.Random(attempt), case["clients"], case["ops"], case["big"], case.get("jobs", 2), attempt_seed=case["seed"])
+                if len(ck.failures) > before:
+                    break
         elif kind == "concurrent":
             import random
 
